@@ -208,7 +208,7 @@ func runC13(r *Report) {
 					if (x.Op == token.QUO || x.Op == token.REM) && isIntType(x.Type()) {
 						if _, isc := ConstInt(x.Y); !isc {
 							c := NewBCtx(fn)
-							r.ObSite("R13b", s, "divisor", c.ProveAt(b, c.Lin(x.Y).Add(konst(1), -1)), "integer division by a value not proved >= 1")
+							r.ObSite("R13b", s, "divisor", c.ProveAtIdx(b, s.Idx, c.Lin(x.Y).Add(konst(1), -1)), "integer division by a value not proved >= 1")
 						}
 					}
 				}
